@@ -231,3 +231,40 @@ Proof.
   unfold stale; intro H; simpl; unfold op_gate2; rewrite H.
   destruct (find_handle s h1) as [[? ?]|]; auto.
 Qed.
+
+(* ---------- refused operations can be erased from any history ---------------------------------------------------- *)
+(* the sub-history of the operations that were NOT refused (computed along the run) *)
+Fixpoint keep_unrefused (s : net) (ops : list op) : list op :=
+  match ops with
+  | [] => []
+  | o :: t => match step s o with
+              | (s', Err _) => keep_unrefused s' t
+              | (s', _) => o :: keep_unrefused s' t
+              end
+  end.
+
+Theorem refused_ops_erasable ops : forall s, run s ops = run s (keep_unrefused s ops).
+Proof.
+  induction ops as [|o ops IH]; intro s; [reflexivity|].
+  cbn [keep_unrefused]. destruct (step s o) as [s' r] eqn:E.
+  assert (R : run s (o :: ops) = run s' ops).
+  { unfold run. cbn [fold_left]. rewrite E. reflexivity. }
+  rewrite R.
+  assert (K : forall l, run s (o :: l) = run s' l).
+  { intro l. unfold run. cbn [fold_left]. rewrite E. reflexivity. }
+  destruct r as [v| | |k].
+  - rewrite K. apply IH.
+  - rewrite K. apply IH.
+  - rewrite K. apply IH.
+  - pose proof (refusal_atomic s o s' k E) as ->. apply IH.
+Qed.
+
+(* and the replies of the kept operations are the replies they got in the full history *)
+Theorem refused_ops_erasable_outs ops : forall s,
+  run_outs s (keep_unrefused s ops) = filter (fun r => match r with Err _ => false | _ => true end) (run_outs s ops).
+Proof.
+  induction ops as [|o ops IH]; intro s; [reflexivity|].
+  cbn [keep_unrefused run_outs]. destruct (step s o) as [s' r] eqn:E.
+  destruct r as [v| | |k]; cbn [filter run_outs]; try (rewrite E; rewrite IH; reflexivity).
+  pose proof (refusal_atomic s o s' k E) as ->. apply IH.
+Qed.
